@@ -107,6 +107,9 @@ pub enum DocOp {
     SigDupAs { at: usize, to: usize },
     /// characters that are not hex digits are spliced into the signature value of #at at an even offset
     SigJunk { at: usize, pos: usize, junk: String },
+    /// a copy of signature #at is appended with its key id re-spelled in upper-case hex digits (another
+    /// string, so at best the same key once more, never a second signer)
+    SigDupCase { at: usize },
 }
 
 #[derive(Clone, Debug, Serialize, Deserialize, PartialEq, Default)]
@@ -388,6 +391,21 @@ pub fn apply_op(doc: &mut Value, op: &DocOp, keyspecs: &[KeySpec]) -> bool {
                 false
             }
         }
+        DocOp::SigDupCase { at } => {
+            if *at < nsig {
+                let mut s = doc["signatures"][*at].clone();
+                let id = s["keyid"].as_str().unwrap_or("").to_string();
+                let up = id.to_ascii_uppercase();
+                if up == id {
+                    return false;
+                }
+                s["keyid"] = json!(up);
+                doc["signatures"].as_array_mut().unwrap().push(s);
+                true
+            } else {
+                false
+            }
+        }
         DocOp::SigJunk { at, pos, junk } => {
             if *at < nsig && !junk.is_empty() {
                 let h = doc["signatures"][*at]["sig"].as_str().unwrap_or("").to_string();
@@ -608,6 +626,7 @@ pub fn op_name(op: &DocOp) -> &'static str {
         DocOp::Relabel { .. } => "RELABEL",
         DocOp::RelabelId { .. } => "RELABEL",
         DocOp::SigDupAs { .. } => "SIGDUP-RELABEL",
+        DocOp::SigDupCase { .. } => "SIGDUP-UPPERCASE",
         DocOp::SigJunk { .. } => "SIGJUNK",
         DocOp::SigFlip { .. } => "SIGFLIP",
         DocOp::Set { .. } => "EDIT",
@@ -768,6 +787,7 @@ pub fn materialise(
     fired: Vec<String>,
     fixed_mtime: bool,
     decoy_root: Option<&Path>,
+    via_symlink: Option<u64>,
 ) -> std::io::Result<Materialised> {
     let mut order: Vec<usize> = (0..stored.len()).collect();
     crate::prng::Rng::stream(arrival_seed, "arrival").shuffle(&mut order);
@@ -825,8 +845,23 @@ pub fn materialise(
                 FileTruth::Special("fifo".into())
             }
             _ => {
-                std::fs::write(&full, &s.bytes)?;
-                if fixed_mtime {
+                // a link directory assembled from a content store: some of its entries are symbolic links
+                // to regular files kept elsewhere (legal; they are files of the directory like any other)
+                let stored_elsewhere = match via_symlink {
+                    Some(seed) => crate::prng::Rng::stream(seed, &s.path).chance(1, 2),
+                    None => false,
+                };
+                if stored_elsewhere {
+                    let store = links_root.parent().unwrap_or(links_root).join("linkstore");
+                    std::fs::create_dir_all(&store)?;
+                    let target = store.join(format!("obj-{}", i));
+                    std::fs::write(&target, &s.bytes)?;
+                    let _ = std::fs::remove_file(&full);
+                    std::os::unix::fs::symlink(&target, &full)?;
+                } else {
+                    std::fs::write(&full, &s.bytes)?;
+                }
+                if fixed_mtime && !stored_elsewhere {
                     // a transport that preserves time stamps (rsync -t, cp -p, tar x): every delivery of a
                     // path carries the same mtime
                     if let Ok(c) = std::ffi::CString::new(full.to_string_lossy().as_bytes()) {
